@@ -166,6 +166,7 @@ pub fn run(ctx: &Ctx) -> i32 {
     // keyword census health: every keyword the generators can emit must have been re-cased at least once
     let censused = rep.stats.productions.keys().filter(|k| k.starts_with("kwcase.")).count();
     rep.extra.insert("keywords_recased".into(), json!(censused));
+    crate::fuzzrun::tape_campaign(ctx, &mut rep, "C08", &gates);
     rep.replay_witnesses(&ctx.findings, &|w| witness(w));
     rep.extra.insert("gates_off".into(), json!(off));
     rep.wall_s = clock.secs();
@@ -198,4 +199,11 @@ pub fn replay(ctx: &Ctx, v: &Value) -> i32 {
             1
         }
     }
+}
+
+/// one tape through the in-process oracle, both generators (used by the coverage-guided `tapes` fuzz target)
+pub fn fuzz_one(tape: &[u8], gates: &Gates) -> Result<(), Failure> {
+    let mut s = Stats::default();
+    check_tape(tape, gates, &mut s, false, false)?;
+    check_tape(tape, gates, &mut s, false, true)
 }
